@@ -47,7 +47,15 @@ func (c *FCtx) protoCall(e *Env, st *State, call *ast.CallExpr, cl callee, recvV
 	switch full {
 	case "(*sync.Mutex).Lock", "(*sync.RWMutex).Lock", "(*sync.Mutex).Unlock", "(*sync.RWMutex).Unlock",
 		"(*sync.RWMutex).RLock", "(*sync.RWMutex).RUnlock", "(*sync.Mutex).TryLock":
-		ref, owner, fld, ok := e.lockFieldOf(cl.recv, st)
+		var ref *Term
+		var owner types.Type
+		var fld string
+		ok := false
+		if fc := e.fixed[call]; fc != nil && fc.lockRef != nil {
+			ref, owner, fld, ok = fc.lockRef, fc.lockOwner, fc.lockField, true
+		} else {
+			ref, owner, fld, ok = e.lockFieldOf(cl.recv, st)
+		}
 		if !ok {
 			// a lock that is not a struct field (local or global): tracked under a name
 			key := "L$local." + exprString(cl.recv)
@@ -96,6 +104,11 @@ func (c *FCtx) lockOp(st *State, key string, ref *Term, op string, pos token.Pos
 	arr := c.heapGet(st, key, SArr(SInt, SInt))
 	cur := Select(arr, ref)
 	c.locksTouched[key] = name
+	// lock counters are never negative (every decrement is guarded by an unlock-held obligation)
+	st.assume(IGe(Select(Var(key+"@pre", SArr(SInt, SInt)), ref), IntC(0)))
+	if op == "Lock" || op == "RLock" {
+		st.assume(IGe(cur, IntC(0)))
+	}
 	switch op {
 	case "Lock", "RLock":
 		c.heapSet(st, key, Store(arr, ref, IAdd(cur, IntC(1))))
@@ -199,9 +212,88 @@ func (c *FCtx) protoChanRecvValue(e *Env, st *State, ch ast.Expr, pos token.Pos)
 		for _, f := range facts {
 			st.assume(f)
 		}
+		// declared facts about values carried by the channel
+		if c.chanValueNonNil(e, st, ch) {
+			if t, ok := v.(*Term); ok && t.Sort == SInt {
+				st.assume(Neq(t, IntC(0)))
+			}
+		}
+		// handoff channel: receiving `false` hands the named lock to the receiver
+		if lock, ref, owner, ok := c.handoffOf(e, st, ch); ok {
+			if b, isB := v.(*Term); isB && b.Sort == SBool {
+				key := c.lockKey(owner, lock, false)
+				arr := c.heapGet(st, key, SArr(SInt, SInt))
+				st.assume(IGe(Select(arr, ref), IntC(0)))
+				c.heapSet(st, key, Store(arr, ref, IAdd(Select(arr, ref), Ite(b, IntC(0), IntC(1)))))
+				c.locksTouched[key] = structKey(owner) + "." + lock
+			}
+		}
 		return v
 	}
 	return c.freshVar("recv", SInt)
+}
+
+// chanValueNonNil: "chanvalue T.ch nonnil" — only non-nil values are ever sent on the channel (assumed; listed).
+func (c *FCtx) chanValueNonNil(e *Env, st *State, ch ast.Expr) bool {
+	sx, ok := stripParens(ch).(*ast.SelectorExpr)
+	if !ok {
+		return false
+	}
+	key, _, _ := fieldKeyOf(e.Info, sx)
+	name := strings.TrimPrefix(key, "F$")
+	for _, d := range c.W.Specs.Decls {
+		if d.Kind == "chanvalue" {
+			f := strings.Fields(d.Text)
+			if len(f) >= 2 && f[1] == "nonnil" && (f[0] == name || d.PkgName+"."+f[0] == name) {
+				c.noteAssumed("only non-nil values are sent on " + name)
+				return true
+			}
+		}
+	}
+	return false
+}
+
+// handoffOf: is ch declared "handoff T.ch T.lock" (sending/receiving false moves the lock)?
+func (c *FCtx) handoffOf(e *Env, st *State, ch ast.Expr) (string, *Term, types.Type, bool) {
+	sx, ok := stripParens(ch).(*ast.SelectorExpr)
+	if !ok {
+		return "", nil, nil, false
+	}
+	sel := e.Info.Selections[sx]
+	if sel == nil || sel.Kind() != types.FieldVal {
+		return "", nil, nil, false
+	}
+	ref, owner, fld, ok := e.fieldAddr(sx, st)
+	if !ok {
+		return "", nil, nil, false
+	}
+	name := structKey(owner) + "." + fld.Name()
+	for _, d := range c.W.Specs.Decls {
+		if d.Kind != "handoff" {
+			continue
+		}
+		f := strings.Fields(d.Text)
+		if len(f) >= 2 && (f[0] == name || d.PkgName+"."+f[0] == name) {
+			lk := f[1]
+			if k := strings.LastIndex(lk, "."); k >= 0 {
+				lk = lk[k+1:]
+			}
+			return lk, ref, owner, true
+		}
+	}
+	return "", nil, nil, false
+}
+
+// protoSendValue: sending `false` on a handoff channel releases the lock to the receiver.
+func (c *FCtx) protoSendValue(e *Env, st *State, ch ast.Expr, v Value) {
+	if lock, ref, owner, ok := c.handoffOf(e, st, ch); ok {
+		if b, isB := v.(*Term); isB && b.Sort == SBool {
+			key := c.lockKey(owner, lock, false)
+			arr := c.heapGet(st, key, SArr(SInt, SInt))
+			c.heapSet(st, key, Store(arr, ref, ISub(Select(arr, ref), Ite(b, IntC(0), IntC(1)))))
+			c.locksTouched[key] = structKey(owner) + "." + lock
+		}
+	}
 }
 
 func (w *World) chanDecl(name string) *Decl {
@@ -281,9 +373,12 @@ func (c *FCtx) protoLoopInvariants(e *Env, ordinal int) []loopInv {
 		eval: func(e *Env, st *State, entry *State) *Term {
 			var cs []*Term
 			for key := range c.locksTouched {
+				if c.transferred(key) && c.loopSpeaksOfLocks(ordinal) {
+					continue
+				}
 				a := c.heapGet(st, key, SArr(SInt, SInt))
 				b := c.heapGet(entry, key, SArr(SInt, SInt))
-				cs = append(cs, Eq(a, b))
+				cs = append(cs, c.sameOnOld(a, b))
 			}
 			return And(cs...)
 		}}}
@@ -300,11 +395,85 @@ func (c *FCtx) protoExit(e *Env, st *State, tag string, pos token.Pos) {
 		}
 		a := c.heapGet(st, key, SArr(SInt, SInt))
 		b := c.heapGet(c.entry, key, SArr(SInt, SInt))
-		c.oblige(st, "balanced", fmt.Sprintf("balanced(%s)#%s", name, tag), pos, Eq(a, b), "lock released or handed over on this exit")
+		c.oblige(st, "balanced", fmt.Sprintf("balanced(%s)#%s", name, tag), pos, c.sameOnOld(a, b), "lock released or handed over on this exit")
 	}
 }
 
-func (c *FCtx) transferred(key string) bool { return false }
+// touchLock havocs the counter named by "held(x.l)" in st.
+func (c *FCtx) touchLock(se *SpecEnv, item string, st *State) {
+	ex, err := parseSpec(item)
+	if err != nil || ex.Kind != "call" || ex.Args[0].Kind != "id" || (ex.Args[0].Name != "held" && ex.Args[0].Name != "rheld") {
+		panic(specFail("touches expects held(obj.lock): " + item))
+	}
+	arg := ex.Args[1]
+	if arg.Kind != "sel" {
+		panic(specFail("touches expects held(obj.lock): " + item))
+	}
+	obj := se.withState(st).eval(arg.Args[0])
+	key := c.lockKey(obj.T, arg.Name, ex.Args[0].Name == "rheld")
+	arr := c.heapGet(st, key, SArr(SInt, SInt))
+	// counters are never negative, before or after the call
+	st.assume(IGe(Select(arr, obj.V.(*Term)), IntC(0)))
+	nh := c.freshVar("held", SInt)
+	st.assume(IGe(nh, IntC(0)))
+	c.heapSet(st, key, Store(arr, obj.V.(*Term), nh))
+	if _, ok := c.locksTouched[key]; !ok {
+		c.locksTouched[key] = strings.TrimPrefix(key, "L$")
+	}
+}
+
+// transferred: the function's own contract speaks about this lock (touches), so the automatic balance
+// obligation does not apply to it.
+// loopSpeaksOfLocks: the contract gives this loop its own invariant about lock counters.
+func (c *FCtx) loopSpeaksOfLocks(ordinal int) bool {
+	if c.Contract == nil {
+		return false
+	}
+	if ordinal < 0 {
+		for _, l := range c.Contract.LabelLoops {
+			for _, inv := range l.Invs {
+				if mentionsLock(inv.Text) {
+					return true
+				}
+			}
+		}
+		return false
+	}
+	if l := c.Contract.Loops[ordinal]; l != nil {
+		for _, inv := range l.Invs {
+			if mentionsLock(inv.Text) {
+				return true
+			}
+		}
+	}
+	return false
+}
+
+// sameOnOld: two lock-counter maps agree on every object that existed when the function was entered.
+func (c *FCtx) sameOnOld(a, b *Term) *Term {
+	if termEq(a, b) {
+		return TTrue
+	}
+	r := Var(c.freshName("r"), SInt)
+	return Forall([]*Term{r}, Implies(ILt(r, Var("$alloc@pre", SInt)), Eq(Select(a, r), Select(b, r))))
+}
+
+func (c *FCtx) transferred(key string) bool {
+	if c.Contract == nil {
+		return false
+	}
+	for _, ex := range c.Contract.Extra {
+		if ex.Kind == "touches" {
+			for _, item := range splitTopLevel(ex.Text, ',') {
+				k := strings.TrimSuffix(strings.TrimPrefix(strings.TrimSpace(item), "held("), ")")
+				if i := strings.LastIndex(k, "."); i >= 0 && strings.HasSuffix(key, "."+k[i+1:]) {
+					return true
+				}
+			}
+		}
+	}
+	return false
+}
 
 // havocLoopHeap forgets the heap locations a loop body may write.
 func (c *FCtx) havocLoopHeap(e *Env, st *State, body *ast.BlockStmt, extra []ast.Node, spec *LoopSpec, entry *State) {
